@@ -401,6 +401,13 @@ var vpTemplates = []string{
 	/* 31 */ "local \x01, \x02 = 1, 2\n\x01, \x02 = f()\ng = \x01 + \x02\n",
 	/* 32 */ "local \x01\nlocal \x02\nfunction g(...)\n \x01, \x02 = ...\nend\n\x01, \x02 = nil\n",
 	/* 33 */ "\x01 = 1\n\x02 = 2\n\x01, \x02 = \x03\nh = \x02\n",
+	// closures two levels deep, recursion, method definitions and calls, table constructors, concatenation, varargs
+	/* 34 */ "local \x01 = 1\nlocal function f()\n local \x02 = 2\n local function g()\n  return \x03 + \x04\n end\n return g\nend\n",
+	/* 35 */ "local function \x01(\x02)\n return \x03(\x04)\nend\ng = \x01\n",
+	/* 36 */ "local \x01 = {}\nfunction \x01.m(\x02) return \x03 end\n\x01.m(\x04)\n\x01:m()\n",
+	/* 37 */ "local \x01 = 1\nlocal \x02 = { \x01, [\x01] = \x03, k = \x01 }\ng = \x02\n",
+	/* 38 */ "local \x01 = 1\nlocal s = \"x\" .. \x01 .. \x02\ng = #\x01 + -\x02\n",
+	/* 39 */ "local \x01 = function(\x02, ...)\n local \x03 = ...\n return \x03, \x02\nend\ng = \x01\n",
 }
 
 // vpInstantiate fills the holes of template t with symbolic names; tag prefixes the variable names.
